@@ -28,6 +28,8 @@ struct Canary {
     serial: u64,
     layer: u8,
     text: String,
+    /// updated in place (`ExtensionsMut::get_mut`) by every on_enter this layer sees
+    enters: u32,
 }
 struct Marker(#[allow(dead_code)] u64);
 
@@ -120,7 +122,7 @@ where
         };
         {
             let mut ext = span.extensions_mut();
-            let c = Canary { serial, layer: self.layer, text: format!("canary-{serial}-{}", self.layer) };
+            let c = Canary { serial, layer: self.layer, text: format!("canary-{serial}-{}", self.layer), enters: 0 };
             let old = if self.layer == 0 { ext.replace(CanA(c)).map(|o| o.0) } else { ext.replace(CanB(c)).map(|o| o.0) };
             if let Some(old) = old {
                 self.log.err(Tag::C05, format!("layer {}: new span serial {serial} (id {:#x}) sees stored data of an earlier span: {old:?}", self.layer, id.into_u64()));
@@ -143,6 +145,17 @@ where
             if self.layer == 0 {
                 if let Some(s) = ctx.span(id) {
                     s.extensions_mut().replace(Marker(serial));
+                }
+            }
+            // in-place update of this layer's stored data
+            if let Some(s) = ctx.span(id) {
+                let mut ext = s.extensions_mut();
+                let before = if self.layer == 0 { ext.get_mut::<CanA>().map(|c| { c.0.enters += 1; c.0.enters }) } else { ext.get_mut::<CanB>().map(|c| { c.0.enters += 1; c.0.enters }) };
+                // read back under the same write lock (other threads may enter the span too)
+                let after = if self.layer == 0 { ext.get_mut::<CanA>().map(|c| c.0.enters) } else { ext.get_mut::<CanB>().map(|c| c.0.enters) };
+                drop(ext);
+                if before.is_none() || before != after {
+                    self.log.err(Tag::C05, format!("layer {}: on_enter: in-place update of the stored data of span {:#x} did not stick ({before:?} written, {after:?} read back)", self.layer, id.into_u64()));
                 }
             }
             let cur = ctx.lookup_current().and_then(|s| canary_of(&s, self.layer).map(|c| c.serial));
